@@ -129,6 +129,20 @@ def check_config(ctx, F, tag, cfg):
         r_, why = residues.agrees(F, hb.term_of_local(0), N_, want)
         ctx.ob("C17.R8.rounding-helper-closed-form", fn + tag, loc(hb.raw["span"]), r_, "abstract-interpretation(residues)",
                "%s(n) = %s; against the documented closed form: %s" % (fn.split("::")[-1], tstr(hb.term_of_local(0))[:70], why), positive=r_ is False)
+    # ---------------- R9 SWAR arithmetic wraps by design: a multiplication by a word-sized pattern constant (0x0101..01 spreads byte
+    # sums) overflows 64 bits for almost every word; under an overflow check it is a panic in every debug build of that arm
+    swar = []
+    for hb in F.all_bodies():
+        if not hb.raw["span"].startswith("src/bits.rs") or "::tests::" in hb.name:
+            continue
+        for bi in sorted(hb.reachable()):
+            tt = hb.blocks[bi]["term"]
+            if tt["t"] == "assert" and tt["kind"].startswith("Overflow(Mul") and not tt["exp"]:
+                ops_ = [hb.term_of_operand(o) for o in tt["ops"]]
+                if any(core(o)[0] == "const" and isinstance(core(o)[1], int) and core(o)[1] >= (1 << 56) for o in ops_):
+                    swar.append((hb.name, loc(tt["sp"])))
+    ctx.ob("C17.R9.swar-multiply-wraps", "src/bits.rs" + tag, "src/bits.rs", not swar, "dataflow",
+           "overflow-checked multiplications by a word-sized constant in bits.rs (count must be 0; `overflowing_mul` / `wrapping_mul` is the form that means it): %s" % swar, nontrivial=False, positive=True)
     # ---------------- R6 reversal width
     hits, seen = reverse_shift_mismatches(F)
     ctx.ob("C17.R6.reverse-shift-width", "crate" + tag, "src/", not hits, "dataflow",
